@@ -169,6 +169,7 @@ func (db *WebDocumentBuilder) Build() *Document {
 func (db *WebDocumentBuilder) flushBlock(group int) {
 	if text := db.textBuilder.Build(db.nextTextIndex); text != nil {
 		text.GroupNumber = group
+		text.PageURL = db.pageURL
 		db.nextTextIndex++
 		db.addText(*text)
 	}
